@@ -11,6 +11,7 @@
      [list (res bool)]  every field is guarded on its own: Ok b prints 1/0, Panic prints "P";
      [list bool]        nothing can fail (for rankp: true = "ok", false = "P"). *)
 From CKC Require Import Base.Prelude Base.Reflect Base.SortN Base.Combs.
+From CKC Require Import Spec.Layout.
 From CKC Require Import Model.Card Model.Deck Model.Hands Model.Five Model.HandRank Model.Binary.
 Open Scope N_scope.
 
@@ -180,13 +181,16 @@ Definition proj_perm5 (chk : bool) (ws : list N) : res (list bool) :=
   | _ => Panic
   end.
 
-(* ---- C08 `relabel`: value (plain, validated) the same under all 24 relabellings of the four real suits; a
-   relabelled card is rebuilt through the accessors and `create` (suit variants 0..3; blank's variant stays) *)
+(* ---- C08 `relabel`: value (plain, validated) the same under all 24 relabellings of the four suits. A relabelled card
+   is built from the documented layout alone: same rank field, the suit field (clubs 0 .. spades 3) mapped through the
+   permutation - not through the crate's accessors or `create`, so that this projection speaks about ranking only *)
 Definition SUIT4 : list N := [0; 1; 2; 3].
 Definition PERM4 : list (list N) := perms SUIT4.
 Definition relabel_suit (p : list N) (s : N) : N := assoc (combine SUIT4 p) s s.
-Definition relabel_hand (p : list N) (ws : list N) : list N :=
-  map (fun w => create (get_card_rank w) (relabel_suit p (get_card_suit w))) ws.
+Definition word_rank (w : N) : N := N.land (N.shiftr w 8) 15.
+Definition word_suit (w : N) : N := N.log2 (N.land (N.shiftr w 12) 15).
+Definition relabel_word (p : list N) (w : N) : N := layout (word_rank w) (relabel_suit p (word_suit w)).
+Definition relabel_hand (p : list N) (ws : list N) : list N := map (relabel_word p) ws.
 Definition proj_relabel (chk : bool) (ws : list N) : res (list bool) :=
   match hand_rank_value chk ws, hand_rank_value_validated chk ws with
   | Ok v0, Ok w0 =>
